@@ -19,7 +19,7 @@ func (b *binder) runPumps() error {
 	t0 := time.Now()
 	cfg := fmt.Sprintf("SPECIFICATION Spec\nCONSTANTS\n  Tier = %q\n  ScriptOf <- NoScript\nINVARIANTS Bounded\n", c.Tier)
 	res, err := tlc.Run(tlc.Opts{SpecDir: c.SpecDir("script"), Module: "MCPump", CfgText: cfg, Workers: 2,
-		Timeout: 15 * time.Minute, Scratch: c.Scratch, HeapGB: 6, Coverage: c.Thorough, Extra: []string{"-dump", dump}})
+		Timeout: 15 * time.Minute, Scratch: c.Scratch, HeapGB: 6, Extra: []string{"-dump", dump}})
 	if err != nil {
 		return fmt.Errorf("MCPump: %w", err)
 	}
@@ -29,11 +29,6 @@ func (b *binder) runPumps() error {
 	c.AddModel(res.Distinct, res.Generated)
 	if err := b.ensureTables(res.Output); err != nil {
 		return err
-	}
-	if c.Thorough {
-		if err := coverageAudit("MCPump", res, []string{"Init", "Pick", "Evaluate"}); err != nil {
-			return err
-		}
 	}
 	c.Logf("MCPump: %d states in %.0fs", res.Distinct, time.Since(t0).Seconds())
 	type job struct {
@@ -73,6 +68,10 @@ func (b *binder) runPumps() error {
 	}
 	if int64(n) != res.Distinct {
 		return fmt.Errorf("MCPump: dump has %d states, TLC reports %d", n, res.Distinct)
+	}
+	// vacuity: the root, one state per pump and the evaluated states are all there
+	if skipped < 2 || len(jobs) == 0 || len(jobs)%(skipped-1) != 0 {
+		return fmt.Errorf("MCPump: unexpected shape of the state space: %d unevaluated and %d evaluated states", skipped, len(jobs))
 	}
 	var firstErr error
 	c.Parallel(len(jobs), func(i int) {
